@@ -72,6 +72,31 @@ CHECKS = {
          'delivery cross-checked against the real Memory class; floats are extremes plus position-identifying values, not all '
          'floats',
          'DESIGN.md §3 C14', 'enumeration'),
+ 'C10': ('exploration',
+         'stateless deviation-bounded exploration of loss/delay patterns, close/reopen times and timer-vs-dispatcher orders on the real retry code in virtual time',
+         'The real Crazyflie.send_packet / retry timers / dispatcher run against a silent simulated device under the '
+         'controlled scheduler. 16 scenarios (single request with 0.2 s and 1 s timeout, prefix-sharing patterns in both '
+         'issue orders, unsolicited packet matching several pending patterns, close, close+reopen inside and at the retry '
+         'instant, reliable link) are explored with every single deviation and (3 scenarios quick / all thorough) every '
+         'pair of deviations among: the reply to each transmission in {lost, +0, +0.1, +0.2 (tie), +0.3, +0.5 s}, the '
+         'unsolicited packet and user close/reopen at any scheduling point, thread order at equal instants. The virtually '
+         'time-stamped transmission log is compared with a reference model of the pending set: retransmission exactly every '
+         'timeout while open and unanswered, none after the answer, longest-prefix cancellation only, single transmission on '
+         'reliable links, nothing on a closed link, nothing of session 1 in session 2.',
+         'a retransmission whose sender entered the send section before the answer was processed, or exactly at the '
+         'instant the obligation ends, is tolerated; virtual-time limit as in C02',
+         'DESIGN.md §3 C10', 'E3'),
+ 'C20': ('exploration',
+         'exhaustive enumeration of the URI grammar product and of driver lists against an independent parser',
+         'Every URI of the radio grammar product (11 dongle ids incl. case-varied and all-digit serials, channels 0..125, 3 '
+         'rates, 363 address strings of every length 1..10 in three letter cases, 4 omitted-field shapes, 8 query strings) '
+         'goes through the real RadioDriver.parse_uri and a stated subset through get_link_driver onto a scripted USB dongle '
+         '(settings in force at each transmission are observed); scan_interface for 13 addresses over scripted populations; '
+         'every sample URI of 6 schemes and 44 unknown/malformed URIs against every driver class in 4 driver lists; bounded '
+         'sequences of failing open_link calls on one Crazyflie object followed by a valid one.',
+         'finite address alphabet, not all 16^10 strings; scripted USB dongle model; "claims a URI" = connect() does not '
+         'raise WrongUriType; malformed limited to the classes the statement names',
+         'DESIGN.md §3 C20', 'enumeration'),
 }
 
 ALL = ['C%02d' % i for i in range(1, 21)]
